@@ -645,3 +645,50 @@ def guard_edges_ip(prog, body, specs, depth=2, extra_edges=()):
                 if (bi, t) not in out:
                     out.append((bi, t))
     return out
+
+
+# ------------------------------------------------------------------ functions that only compare two values
+CMP_TRUTH = {"Lt": lambda c: c < 0, "Le": lambda c: c <= 0, "Gt": lambda c: c > 0, "Ge": lambda c: c >= 0, "Eq": lambda c: c == 0, "Ne": lambda c: c != 0,
+             "lt": lambda c: c < 0, "le": lambda c: c <= 0, "gt": lambda c: c > 0, "ge": lambda c: c >= 0, "eq": lambda c: c == 0, "ne": lambda c: c != 0}
+
+
+def ordering_walk(body, side, results, order, present):
+    """Results reachable in `body` when the two tracked values X ('x') and Y ('y') are present as given by `present`
+    ({'x': bool, 'y': bool}) and compare as `order` (-1: x<y, 0: x=y, 1: x>y, None: not both present).
+    `side(expr)` classifies an expression as 'x', 'y' or None; `results` maps block -> result label.
+    Switches on the discriminant of X / Y follow the presence, comparisons of X and Y (binary operators or PartialOrd /
+    PartialEq method calls) follow the ordering, every other switch is explored on all successors."""
+    sw = {bi: (e, targets, otherwise) for bi, e, targets, otherwise in body.switch_edges()}
+    seen, out, dq = set(), set(), [0]
+    while dq:
+        u = dq.pop()
+        if u in seen:
+            continue
+        seen.add(u)
+        if u in results:
+            out.add(results[u])
+        nxt = body.succs(u)
+        if u in sw:
+            e, targets, otherwise = sw[u]
+            cur, pol = F.peel_polarity(e)
+            if cur[0] == "discr":
+                sd = side(cur[1])
+                if sd in present:
+                    want = 1 if present[sd] else 0
+                    tg = [tb for v, tb in targets if v == want]
+                    nxt = tg if tg else [otherwise]
+            elif order is not None:
+                op, a, b = None, None, None
+                if cur[0] == "bin" and cur[1] in CMP_TRUTH:
+                    op, a, b = cur[1], cur[2], cur[3]
+                elif cur[0] == "call" and len(cur[2]) == 2 and cur[1].rsplit("::", 1)[-1] in ("lt", "le", "gt", "ge", "eq", "ne"):
+                    op, a, b = cur[1].rsplit("::", 1)[-1], cur[2][0], cur[2][1]
+                if op is not None:
+                    sa_, sb_ = side(a), side(b)
+                    if {sa_, sb_} == {"x", "y"}:
+                        c = order if sa_ == "x" else -order
+                        val = CMP_TRUTH[op](c) == pol
+                        tt, ft = F.bool_targets(targets, otherwise)
+                        nxt = tt if val else ft
+        dq.extend(nxt)
+    return out
